@@ -12,42 +12,42 @@ import (
 
 // Obligation is one proof obligation.
 type Obligation struct {
-	Name    string   `json:"name"`
-	Func    string   `json:"func"`
-	Kind    string   `json:"kind"`
-	Clause  string   `json:"clause,omitempty"`
-	Props   []string `json:"props,omitempty"`
-	Pos     string   `json:"pos,omitempty"`
-	Script  string   `json:"-"`
-	Status  string   `json:"status"` // discharged, failed, unknown, trivial
-	Solver  string   `json:"solver,omitempty"`
-	Seconds float64  `json:"seconds"`
-	Model   string   `json:"model,omitempty"`
-	Output  string   `json:"output,omitempty"`
-	Bounded int      `json:"bounded,omitempty"`
-	Size    int      `json:"smt_bytes"`
-	Inputs  map[string]string `json:"-"`
-	Replay     *ReplayInfo `json:"-"`
-	ClauseExpr Expr        `json:"-"`
+	Name       string            `json:"name"`
+	Func       string            `json:"func"`
+	Kind       string            `json:"kind"`
+	Clause     string            `json:"clause,omitempty"`
+	Props      []string          `json:"props,omitempty"`
+	Pos        string            `json:"pos,omitempty"`
+	Script     string            `json:"-"`
+	Status     string            `json:"status"` // discharged, failed, unknown, trivial
+	Solver     string            `json:"solver,omitempty"`
+	Seconds    float64           `json:"seconds"`
+	Model      string            `json:"model,omitempty"`
+	Output     string            `json:"output,omitempty"`
+	Bounded    int               `json:"bounded,omitempty"`
+	Size       int               `json:"smt_bytes"`
+	Inputs     map[string]string `json:"-"`
+	Replay     *ReplayInfo       `json:"-"`
+	ClauseExpr Expr              `json:"-"`
 }
 
 // Top holds what is shared by a top-level function verification and all the
 // frames inlined into it.
 type Top struct {
-	en      *Engine
-	ctx     *Ctx
-	fnKey   string
-	obls    []*Obligation
-	names   map[string]int
-	ncell   int
-	cellT   map[int]types.Type
-	notes   []string // unmodelled calls etc.
-	noteSet map[string]bool
-	strObjs map[string]Val
-	usesDot bool
-	alloc0  Term
-	props   []string
-	inputs  map[string]string // name -> SMT term for model extraction
+	en         *Engine
+	ctx        *Ctx
+	fnKey      string
+	obls       []*Obligation
+	names      map[string]int
+	ncell      int
+	cellT      map[int]types.Type
+	notes      []string // unmodelled calls etc.
+	noteSet    map[string]bool
+	strObjs    map[string]Val
+	usesDot    bool
+	alloc0     Term
+	props      []string
+	inputs     map[string]string // name -> SMT term for model extraction
 	entryHeaps map[string]Term
 	heapSorts  map[string]string
 	trusted    map[string]bool // external/trusted contracts used
@@ -56,7 +56,7 @@ type Top struct {
 	closures   map[string]Val
 	nbound     int
 	hookSeen   map[string]bool // callee names that reached callHooks (to report hooks that match nothing)
-	goCaps     []refComp // reference components handed to the goroutine at the current go statement
+	goCaps     []refComp       // reference components handed to the goroutine at the current go statement
 	epochHeaps map[string]Term
 	epochMerge map[int][]epochPart
 	nepoch     int
@@ -116,23 +116,24 @@ func (s *State) clone() *State {
 
 // Frame is one activation (top-level or inlined).
 type Frame struct {
-	en     *Engine
-	top    *Top
-	ctx    *Ctx
-	fn     *ssa.Function
-	fc     *FuncContract
-	regs   map[ssa.Value]Val
-	cellOf map[*ssa.Alloc]int
-	depth  int
-	prefix string
-	entry  *State
-	params []Val
-	binds  []Val // free variable bindings (closures)
-	pkg    *types.Package
+	en         *Engine
+	top        *Top
+	ctx        *Ctx
+	fn         *ssa.Function
+	fc         *FuncContract
+	regs       map[ssa.Value]Val
+	cellOf     map[*ssa.Alloc]int
+	depth      int
+	inTypeInv  bool // evaluating a type invariant (no nested application)
+	prefix     string
+	entry      *State
+	params     []Val
+	binds      []Val // free variable bindings (closures)
+	pkg        *types.Package
 	localNames map[string][]*ssa.Alloc
-	parent *Frame
-	loops  map[*ssa.BasicBlock]*loopInfo
-	inl    string // "@callee@callee2" chain for inlined frames
+	parent     *Frame
+	loops      map[*ssa.BasicBlock]*loopInfo
+	inl        string // "@callee@callee2" chain for inlined frames
 	entryScope *Scope
 }
 
@@ -730,7 +731,9 @@ func (fr *Frame) cellsAssignedIn(li *loopInfo) []*ssa.Alloc {
 			}
 		}
 	}
-	sort.Slice(out, func(i, j int) bool { return out[i].Pos() < out[j].Pos() || (out[i].Pos() == out[j].Pos() && out[i].Name() < out[j].Name()) })
+	sort.Slice(out, func(i, j int) bool {
+		return out[i].Pos() < out[j].Pos() || (out[i].Pos() == out[j].Pos() && out[i].Name() < out[j].Name())
+	})
 	return out
 }
 
@@ -1048,6 +1051,15 @@ func (fr *Frame) loopNested(inner int, li *loopInfo) bool {
 	return false
 }
 
+func hookNameIn(names, name string) bool {
+	for _, n := range strings.Split(names, "|") {
+		if n == name {
+			return true
+		}
+	}
+	return false
+}
+
 // loopCalls: the loop contains a direct call of a function or method with that name.
 func (fr *Frame) loopCalls(li *loopInfo, name string) bool {
 	seen := map[*ssa.Function]bool{}
@@ -1061,7 +1073,7 @@ func (fr *Frame) loopCalls(li *loopInfo, name string) bool {
 				}
 				cc := ci.Common()
 				if cc.IsInvoke() {
-					if cc.Method.Name() == name {
+					if hookNameIn(invokeHookNames(cc), name) {
 						return true
 					}
 					continue
@@ -1070,7 +1082,7 @@ func (fr *Frame) loopCalls(li *loopInfo, name string) bool {
 				if fn == nil {
 					continue
 				}
-				if hookName(fn.Name()) == name {
+				if hookNameIn(fnHookNames(fn), name) {
 					return true
 				}
 				// hooks also see the calls made by callees whose contract says "inline"
